@@ -101,6 +101,8 @@ class QPlugin:
 
     def shutdown(self):
         for j in list(self.running_jobs.values()):
+            if j.done:
+                continue
             logger.debug("reschedule %s" % j)
             self.workq.pushjob(j)
 
